@@ -70,8 +70,12 @@ def check(tier):
     try:
         dA = vlib.build_driver(work, name="edrv_default")
         dB = vlib.build_driver(work, tags="purego", name="edrv_purego")
+        mc = [vlib.model_check(work, "MC_LimbBounds", "MC_LimbBounds_real.cfg"),
+              vlib.model_check(work, "MC_LimbBounds", "MC_LimbBounds_real_bug.cfg", expect_violation=True)]
         progs = programs(tier)
         fails, tot, api_fail = run_pair(work, dA, dB, progs, "c20")
+        tot["states"] += sum(r["states"] for r in mc)
+        tot["transitions"] += sum(r["transitions"] for r in mc)
         infra = [f for f in fails if any(x["prop"] == "INFRA" for x in f["fails"])]
         if infra:
             raise Infra("the two traces are out of step: %s" % json.dumps([{k: v for k, v in f.items() if k != "program"} for f in infra[:2]]))
@@ -84,7 +88,7 @@ def check(tier):
             "events_validated": tot["events"], "conjuncts_evaluated": tot["conjuncts"],
             "builds": ["default (amd64 assembly feMul/feSquare)", "-tags purego (portable Go)"],
             "events_failing_the_api_spec": {k: len(v) for k, v in api_fail.items()},
-            "refinement_drift_events": drift,
+            "refinement_drift_events": drift, "model_checking_runs": mc,
             "exhaustive": False,
             "explanation": "every program is executed by two drivers built from the working tree; TLC consumes the two traces in lock step "
                            "(TracePair) and each trace on its own (TraceApi); states = one per consumed trace line over all TLC runs",
